@@ -164,9 +164,13 @@ def getvarpnc(f, varkeys, coordkeys=None, copy=True):
             coordvar = f.variables[coordkey]
             propd = dict([(k, getattr(coordvar, k))
                           for k in coordvar.ncattrs()])
+            coordvals = coordvar[...]
+            if copy:
+                # like the data variables above
+                coordvals = coordvals.copy()
             outf.createVariable(coordkey, coordvar.dtype.char,
                                 coordvar.dimensions,
-                                values=coordvar[...], **propd)
+                                values=coordvals, **propd)
             for dk in coordvar.dimensions:
                 if dk not in outf.dimensions:
                     dv = outf.createDimension(dk, len(f.dimensions[dk]))
